@@ -213,6 +213,9 @@ func (w *Watcher) StopWatching(_ context.Context, id channel.ID) error {
 		// Channel could have been closed while were waiting for the mutex locked.
 		return errors.New("channel not registered with the watcher")
 	}
+	if !ch.isSubChannel() && len(ch.subChs) > 0 {
+		return errors.WithMessagef(ErrSubChannelsPresent, "cannot de-register: %d %v", len(ch.subChs), ch.id)
+	}
 	close(ch.done)
 
 	if ch.isSubChannel() {
@@ -222,8 +225,6 @@ func (w *Watcher) StopWatching(_ context.Context, id channel.ID) error {
 		}
 
 		delete(parent.subChs, id)
-	} else if len(ch.subChs) > 0 {
-		return errors.WithMessagef(ErrSubChannelsPresent, "cannot de-register: %d %v", len(ch.subChs), ch.id)
 	}
 
 	closePubSubs(ch)
